@@ -419,6 +419,8 @@ def random_call(rng, kind):
             c['hasmax'], c['max'] = True, rng.choice(grid)
     if kind == 'bool':
         c['bat'] = rng.random() < 0.5
+    if kind == 'has':
+        c['required'] = c['hasdef'] = c['store'] = False
     return c
 
 
@@ -788,7 +790,7 @@ def replay(ctx, case):
             spec = {txt(x['k']): [txt(v) for v in x['v']] for x in ex[0]['entries']}
             vals = spec.get(name)
             ck = case['call']['kind']
-            convs = [refconv(ck, v) for v in vals] if vals else []
+            convs = [refconv(ck, v) for v in vals] if vals and ck != 'has' else []
             if ck not in ('list', 'list_int'):
                 convs = convs[-1:]
             g = getter_event(req, name, case['call'], vals is not None, convs)
